@@ -4,16 +4,16 @@
 cd /verif
 [ -n "$(git -C /repo status --short)" ] && { echo "/repo is not clean"; exit 2; }
 fail=0
-for d in seeded/*/; do
+for d in /verif/seeded/*/; do
   id=$(basename $d); prop=${id%%-*}
   [ -n "${1:-}" ] && [ "$1" != "$prop" ] && continue
-  git -C /repo apply $d/patch.diff || { echo "$id: patch does not apply"; fail=1; continue; }
-  ./check $prop --tier quick --no-evidence > $d/check_current.txt 2>&1; rc=$?
+  git -C /repo apply ${d}patch.diff || { echo "$id: patch does not apply"; fail=1; continue; }
+  ./check $prop --tier quick --no-evidence > ${d}check_current.txt 2>&1; rc=$?
   git -C /repo checkout -- .
-  if [ $rc -eq 1 ] && grep -q "^VIOLATION property=$prop" $d/check_current.txt; then
-    echo "$id: caught ($(grep -c '^VIOLATION' $d/check_current.txt) violation lines; $(tail -1 $d/check_current.txt))"
+  if [ $rc -eq 1 ] && grep -q "^VIOLATION property=$prop" ${d}check_current.txt; then
+    echo "$id: caught ($(grep -c '^VIOLATION' ${d}check_current.txt) violation lines; $(tail -1 ${d}check_current.txt))"
   else
-    echo "$id: MISSED (exit $rc; $(tail -1 $d/check_current.txt))"; fail=1
+    echo "$id: MISSED (exit $rc; $(tail -1 ${d}check_current.txt))"; fail=1
   fi
 done
 exit $fail
